@@ -229,9 +229,12 @@ def run(ctx: core.Ctx, prop: str):
             continue
         for s in o["subprojects"]:
             if s["error"]:
-                # an exception escaping codemod.apply is a C10 matter; here it only means no observation
+                # an exception escaping codemod.apply is a C10 matter; for this property it means NO OBSERVATION of a
+                # program the search was meant to look at: the correspondence is broken, not passed
                 ctx.count("apply_raised")
                 ctx.notes.append(f"{cm}: apply raised: {s['error'][-200:]}")
+                ctx.mismatch("e2e run of " + cm, "codemod.apply raised, nothing observed for this subproject",
+                             {"codemod": cm, "error": s["error"][-800:], "files": {k: v for k, v in list(s.get("before", {}).items())[:3]}})
                 continue
             rep1, rep2 = s["pass1"]["report"], s["pass2"]["report"]
             for f, before in s["before"].items():
@@ -274,6 +277,8 @@ def run(ctx: core.Ctx, prop: str):
                     ctx.violation(f"unlisted_C07_dependency_{cm.split('/')[-1]}", f"second run of {cm} updated a manifest again",
                                   {"codemod": cm, "second_report": rep2, "expected": "no dependency added by the second run"})
     ctx.count("files_changed_by_first_run", n_changed)
+    if n_changed == 0:
+        ctx.mismatch("e2e search", "no file was changed by any codemod in this run: the search observed nothing", {"jobs": len(jobs)})
     if prop == "C02":
         run_local_import_round(ctx, jobs, outs)
     if prop == "C07":
@@ -514,6 +519,8 @@ def run_sequences(ctx: core.Ctx, prop: str, n_projects: int):
         ctx.count(f"sequence_len:{len(order)}")
         if r["rc"] != 0:
             ctx.notes.append(f"sequence {order}: CLI exit {r['rc']}: {r['stderr'][-200:]}")
+            ctx.mismatch("e2e sequence run", f"CLI exit {r['rc']} for sequence {order}: nothing observed",
+                         {"sequence": order, "stderr": r["stderr"][-800:]})
             continue
         executed = [x["codemod"] for x in (rep or {}).get("results", [])]
         for f, before in files.items():
